@@ -106,6 +106,7 @@ class SampleWorld:
             fi = self.f.fns.get(b.path) or {}
             if (self.f.ty(fi.get("impl_self") or "") or {}).get("path") == rd_adt and b is not roles["read"] and b is not roles["reader_ctor"]:
                 hooks[b.path] = (lambda nm: (lambda I, c, a: num_const(0) if nm.endswith("zero") else num_const(1)))(b.path)
+        hooks.update(vector_spec_hooks(self.f))
         I = Interp(self.f, models=hooks)
         self.I = I
         s = roles and ctx.roles.sample()
@@ -161,6 +162,64 @@ class SampleWorld:
     def hook_quantile(self, I, c, args):
         self.calls["quantile"] = args
         return Opt(True, Num(Expr.symbol("lambda")))
+
+
+def vector_spec_hooks(f):
+    """Vector's primitives by their definitions (decided separately under C20-b): the formulas of C08-C11 then do not depend on how
+    the primitives are coded (assume-guarantee)."""
+    def elems(v):
+        if isinstance(v, Struct) and "elements" in v.fields:
+            return v.fields["elements"]
+        raise Undecided("not a vector")
+
+    def mk(fn):
+        return Struct("Vector", {"elements": Arr(("D",), fn, name="vec")})
+
+    def h_add(I, c, a):
+        x, y = elems(a[0]), elems(a[1])
+        return mk(lambda i: Num(x.at(i).expr + y.at(i).expr))
+
+    def h_sub(I, c, a):
+        x, y = elems(a[0]), elems(a[1])
+        return mk(lambda i: Num(x.at(i).expr - y.at(i).expr))
+
+    def h_mul(I, c, a):
+        x = elems(a[0])
+        if not isinstance(a[1], Num):
+            raise Undecided("vector scaled by a non-scalar")
+        return mk(lambda i: Num(x.at(i).expr * a[1].expr))
+
+    def h_dot(I, c, a):
+        x, y = elems(a[0]), elems(a[1])
+        i = fresh("i")
+        return Num((x.at(i).expr * y.at(i).expr).sum_over(i, "D"))
+
+    def h_sq(I, c, a):
+        x = elems(a[0])
+        i = fresh("i")
+        return Num((x.at(i).expr * x.at(i).expr).sum_over(i, "D"))
+
+    def h_zero(I, c, a):
+        return mk(lambda i: num_const(0))
+    out = {}
+    for b in f.mir.values():
+        fi = f.fns.get(b.path) or {}
+        if "vector::Vector" not in (fi.get("impl_self") or ""):
+            continue
+        tr, nm = (fi.get("impl_trait") or ""), fi.get("name")
+        if tr.endswith("arith::Add") and nm == "add":
+            out[b.path] = h_add
+        elif tr.endswith("arith::Sub") and nm == "sub":
+            out[b.path] = h_sub
+        elif tr.endswith("arith::Mul") and nm == "mul":
+            out[b.path] = h_mul
+        elif not tr and nm == "dot":
+            out[b.path] = h_dot
+        elif not tr and nm == "squared":
+            out[b.path] = h_sq
+        elif not tr and nm in ("new", "new_from_num"):
+            out[b.path] = h_zero
+    return out
 
 
 _worlds = {}
@@ -1169,7 +1228,7 @@ def gdod_clause(ctx, RID, tb):
     if True:
         tw = table_world(ctx)
         r = tw.result
-        ent = r.fields["table"].at("i")
+        ent = tw.entry_from_writes("i")
         cls = "edges(«i»)"
         k = fresh("k")
         W = ssum(leaf("w", k), k, cls)
@@ -1302,6 +1361,25 @@ class TableWorld:
         self.tb = tb
 
 
+def _entry_from_writes(self, ent_name):
+    """Entry fields of subset `ent_name` as written inside the subset loop (robust against whatever later statements do with the table)."""
+    out = {}
+    counts = {}
+    for (var, path, op, val, conds) in self.I.write_log:
+        if len(path) == 2 and path[0][0] == "idx" and path[1][0] == "field" and op == "=":
+            fld = path[1][1]
+            if fld not in ("generalized_dod", "loop_number", "mass_momentum_spanning"):
+                continue
+            counts[fld] = counts.get(fld, 0) + 1
+            v = val.payload if isinstance(val, Opt) else val
+            from ..kern.interp import subst_val
+            out[fld] = subst_val(v, {path[0][1]: ent_name})
+    if sorted(out) != ["generalized_dod", "loop_number", "mass_momentum_spanning"] or any(c != 1 for c in counts.values()):
+        raise Undecided("the subset loop does not write generalized_dod / loop_number / mass_momentum_spanning exactly once each (%s)" % counts)
+    return Struct("Entry", out)
+
+
+TableWorld.entry_from_writes = _entry_from_writes
 _tworlds = {}
 
 
